@@ -254,29 +254,31 @@ fn c11_send_limit_update() {
 /// What a following credit may hand out after `revise_max_data` (TLS finished; peer's real
 /// `initial_max_data` = m; 0-RTT possibly rejected). Safety: everything charged so far plus the new
 /// credit stays within the limit now in force.
-fn revise_then_credit(assume_trigger_away: bool) {
+fn revise_then_credit() {
     let (ctl, sent, max, _fl) = any_send_ctl();
     let rejected: bool = kani::any();
     let m: u64 = kani::any();
     kani::assume(m <= VMAX);
-    if assume_trigger_away {
-        // suspected defect #8: 0-RTT rejected and the server's fresh initial_max_data is smaller
-        // than what was already charged under the remembered parameters
-        kani::assume(!(rejected && m < sent));
-    }
+    // NOTE: no exclusion of `rejected && m < sent` — that case was a genuine defect (underflow in
+    // `avaliable()`: panic / unlimited credit), repaired in /repo by "fix: reset connection-level
+    // sent_data when 0-RTT is rejected"; it stays inside the claim so a regression is reported.
     ctl.revise_max_data(rejected, m);
     let (s, mx, f) = peek(&ctl);
-    assert!(s == sent);
     if rejected {
+        assert!(s == 0, "0-RTT rejected: the peer discarded the data, nothing counts as sent any more (streams re-send it as fresh data)");
         assert!(mx == m, "after a 0-RTT rejection the limit is exactly the server's initial_max_data");
         assert!(!f, "blocked flag re-armed for the new limit");
     } else {
+        assert!(s == sent);
         assert!(mx == if m > max { m } else { max });
     }
     assert!(s <= mx, "sent_data <= max_data after revise_max_data");
     let quota: usize = kani::any();
     let credit = ctl.credit(quota).unwrap();
     assert!(credit.available() as u64 <= mx - s, "credit after the revision stays within the limit in force");
+    let (s2, mx2, _) = peek(&ctl);
+    assert!(s2 == s + credit.available() as u64 && mx2 == mx && s2 <= mx2);
+    kani::cover!(rejected && m < sent, "0-RTT rejected and the fresh limit is below what had been charged (former defect)");
     kani::cover!(rejected && m >= sent && m < max, "0-RTT rejected, limit shrunk but still covers what was sent");
     kani::cover!(!rejected && m > max, "handshake confirmed a larger limit");
     core::mem::forget(credit);
@@ -287,18 +289,10 @@ fn revise_then_credit(assume_trigger_away: bool) {
 #[kani::unwind(3)]
 #[kani::stub(crate::net::tx::ArcSendWakers::wake_all_by, stub_wake_all_by)]
 fn c11_send_revise_max_data() {
-    revise_then_credit(true);
+    revise_then_credit();
 }
 
-/// PENDING (suspected genuine defect #8): without the assumption the same harness fails —
-/// `max_data - sent_data` underflows in `avaliable()` (panic with overflow checks; with wrapping
-/// arithmetic the credit becomes min(quota, 2^64 - (sent - m)), i.e. unlimited).
-#[kani::proof]
-#[kani::unwind(3)]
-#[kani::stub(crate::net::tx::ArcSendWakers::wake_all_by, stub_wake_all_by)]
-fn c11_send_revise_max_data_rejected_smaller() {
-    revise_then_credit(false);
-}
+
 
 // ---- receiving side -----------------------------------------------------------------------------
 
